@@ -737,7 +737,7 @@ def judge_forms(sc, rec):
 def set_reuse_case_st(draw):
     sc = draw(scenario_st().filter(lambda c: c["kind"].startswith("set-")))
     sc["subset"] = draw(st.sampled_from(["first-only", "first+last", "last-alone"]))
-    sc["form"] = draw(st.sampled_from(["dict", "envelope"]))
+    sc["form"] = draw(st.sampled_from(["dict", "envelope", "json"]))
     return sc
 
 
@@ -755,6 +755,12 @@ def judge_set_reuse(sc, rec):
     resps = encode_all(sc)
     shared = [copy.deepcopy(r) for r in resps]
     wrap = (lambda r: {"value": r}) if sc["form"] == "envelope" else (lambda r: r)
+    if sc["form"] == "json":
+        # the same TEXT object is handed to both uses (a str cannot be rewritten, but a
+        # parse shared behind the scenes can); the pristine run gets the dicts
+        texts = {id(r): json.dumps(r) for r in shared}
+        wrap = lambda r: texts.get(id(r), r)  # noqa: E731
+    rec.event("form=" + sc["form"])
     txs = _reference_transforms(sc)
     first = lib.CubeSet([wrap(r) for r in shared], copy.deepcopy(txs), sc["population"],
                         sc["mask_size"])
